@@ -2,6 +2,7 @@ package verifsim
 
 import (
 	"fmt"
+	"sort"
 	"strings"
 )
 
@@ -246,12 +247,17 @@ func runCLIJob(c *Ctl, job *Job, idx int, res *RunResult) {
 			c.Ch.Reseed(seedFor(job.Base^0xc1120001, world))
 		}
 		w, _ := GenCLIWorld(c.Ch, job.Tier == "thorough")
-		for id, pl := range w.Plans {
+		var ids []string
+		for id := range w.Plans {
+			ids = append(ids, id)
+		}
+		sort.Strings(ids) // never draw choices in map order
+		for _, id := range ids {
+			pl := w.Plans[id]
 			if c.Ch.Bool(1, 4, "ignores-sigint") {
 				pl.Intr, pl.IntrMS = "later", []int{1, 300, 2000}[c.Ch.Choose(3, "kill-delay")]
 			}
 			pl.DurMS += c.Ch.Choose(200, "extra-dur")
-			_ = id
 		}
 		if !c.Ch.replaying {
 			c.Ch.Reseed(seedFor(job.Base^0xc1120002, world))
